@@ -1,4 +1,5 @@
-// V-fstr prelude (C18, "strings are code-point sequences"): FencedString::{len, substr, substring}
+// V-fstr prelude (C18, "strings are code-point sequences"): FencedString::{from_string, from_str, len, substr,
+// substring, char_index_of_byte, push, push_ascii, to_lowercase, to_uppercase, ..} and the `+` impl
 // (src/util/fenced_string.rs), real text; `struct FencedString` is the real definition.  `String` and `Vec` are
 // the MODEL types below (same names, so that the source text is unchanged): a string is its byte sequence, a
 // vector its element sequence; slicing, `to_string`, `iter().map(..).collect()` by their documented meaning.
@@ -38,15 +39,26 @@ pub broadcast axiom fn axiom_ascii_len(b: Seq<u8>)
 pub broadcast axiom fn axiom_ascii(b: Seq<u8>, i: int)
     requires ascii(b), 0 <= i <= b.len(),
     ensures #[trigger] off(b, i) == i;
+/// every code point takes at least one byte, so as many code points as bytes means one byte each: ASCII
+pub broadcast axiom fn axiom_len_ascii(b: Seq<u8>)
+    requires #[trigger] nchars(b) == b.len(),
+    ensures ascii(b);
 pub broadcast axiom fn axiom_empty(b: Seq<u8>)
     requires b.len() == 0,
     ensures #[trigger] ascii(b), nchars(b) == 0;
-pub broadcast group group_utf8 { axiom_off, axiom_ascii_len, axiom_ascii, axiom_piece, axiom_empty }
+pub broadcast group group_utf8 { axiom_off, axiom_ascii_len, axiom_ascii, axiom_piece, axiom_empty, axiom_len_ascii }
 /// a piece cut at code-point boundaries: its code points, offsets and ASCII-ness
 pub broadcast axiom fn axiom_piece(b: Seq<u8>, i: int, j: int, k: int)
     requires 0 <= i <= j <= nchars(b), 0 <= k <= j - i,
     ensures nchars(cps(b, i, j)) == j - i, #[trigger] off(cps(b, i, j), k) == off(b, i + k) - off(b, i),
         ascii(b) ==> ascii(cps(b, i, j));
+
+/// concatenation of two texts: the code points of the first followed by those of the second
+pub broadcast axiom fn axiom_concat(a: Seq<u8>, c: Seq<u8>)
+    ensures #[trigger] nchars(a + c) == nchars(a) + nchars(c), ascii(a + c) == (ascii(a) && ascii(c));
+pub broadcast axiom fn axiom_concat_off(a: Seq<u8>, c: Seq<u8>, k: int)
+    requires 0 <= k <= nchars(a) + nchars(c),
+    ensures #[trigger] off(a + c, k) == (if k <= nchars(a) { off(a, k) } else { a.len() + off(c, k - nchars(a)) });
 
 // ------------------------------------------------------------------ String, Vec (models)
 pub struct String { pub b: Ghost<Seq<u8>> }
@@ -54,8 +66,69 @@ pub struct String { pub b: Ghost<Seq<u8>> }
 #[allow(non_camel_case_types)]
 pub struct str { pub b: Ghost<Seq<u8>> }
 impl String {
+    /// (an allocation never exceeds isize::MAX bytes)
     #[verifier::external_body]
-    pub fn len(&self) -> (r: usize) ensures r == self.b@.len() { unimplemented!() }
+    pub fn len(&self) -> (r: usize) ensures r == self.b@.len(), r <= isize::MAX { unimplemented!() }
+    #[verifier::external_body]
+    pub fn push_str(&mut self, o: &str) ensures final(self).b@ == old(self).b@ + o.b@, final(self).b@.len() <= isize::MAX { unimplemented!() }
+    #[verifier::external_body]
+    pub fn is_empty(&self) -> (r: bool) ensures r == (self.b@.len() == 0) { unimplemented!() }
+    #[verifier::external_body]
+    pub fn shrink_to_fit(&mut self) ensures final(self).b@ == old(self).b@ { unimplemented!() }
+}
+impl str {
+    #[verifier::external_body]
+    pub fn len(&self) -> (r: usize) ensures r == self.b@.len(), r <= isize::MAX { unimplemented!() }
+}
+/// `s.char_indices()`: the code points of s with their byte offsets, in order (the `char` itself is not constrained)
+pub struct CharIndices { pub b: Ghost<Seq<u8>>, pub k: Ghost<int> }
+impl CharIndices {
+    #[verifier::external_body]
+    pub fn next(&mut self) -> (r: Option<(usize, char)>)
+        ensures final(self).b@ == old(self).b@,
+            old(self).k@ < nchars(old(self).b@) ==> (r matches Some(p) && p.0 == off(old(self).b@, old(self).k@) && final(self).k@ == old(self).k@ + 1),
+            old(self).k@ >= nchars(old(self).b@) ==> (r is None && final(self).k@ == old(self).k@),
+    { unimplemented!() }
+}
+impl String {
+    #[verifier::external_body]
+    pub fn char_indices(&self) -> (r: CharIndices) ensures r.b@ == self.b@, r.k@ == 0 { unimplemented!() }
+}
+/// case mapping of a text (std's `str::to_lowercase / to_uppercase`): some text -- it may have more or fewer
+/// bytes and code points than the original (U+0130 grows, U+212A shrinks)
+pub uninterp spec fn lower(b: Seq<u8>) -> Seq<u8>;
+pub uninterp spec fn upper(b: Seq<u8>) -> Seq<u8>;
+pub assume_specification [char::is_lowercase] (_0: char) -> bool;
+pub assume_specification [char::is_uppercase] (_0: char) -> bool;
+pub struct Chars { pub b: Ghost<Seq<u8>> }
+impl Chars {
+    #[verifier::external_body]
+    pub fn all<F>(self, f: F) -> (r: bool) { unimplemented!() }
+}
+impl String {
+    #[verifier::external_body]
+    pub fn chars(&self) -> (r: Chars) ensures r.b@ == self.b@ { unimplemented!() }
+    #[verifier::external_body]
+    pub fn to_lowercase(&self) -> (r: String) ensures r.b@ == lower(self.b@) { unimplemented!() }
+    #[verifier::external_body]
+    pub fn to_uppercase(&self) -> (r: String) ensures r.b@ == upper(self.b@) { unimplemented!() }
+}
+impl core::ops::Deref for String {
+    type Target = str;
+    #[verifier::external_body]
+    fn deref(&self) -> (r: &str) ensures r.b@ == self.b@ { unimplemented!() }
+}
+impl Clone for Vec<usize> {
+    #[verifier::external_body]
+    fn clone(&self) -> (r: Vec<usize>) ensures r.v@ == self.v@ { unimplemented!() }
+}
+impl Default for String {
+    #[verifier::external_body]
+    fn default() -> (r: String) ensures r.b@ == Seq::<u8>::empty() { unimplemented!() }
+}
+impl<T> Default for Vec<T> {
+    #[verifier::external_body]
+    fn default() -> (r: Vec<T>) ensures r.v@.len() == 0 { unimplemented!() }
 }
 impl str {
     #[verifier::external_body]
@@ -82,18 +155,56 @@ pub struct Vec<T> { pub v: Ghost<Seq<T>> }
 pub struct VSlice<T> { pub v: Ghost<Seq<T>> }
 pub struct VIter<'a, T> { pub r: Ghost<Seq<&'a T>> }
 pub struct VMapped<U> { pub r: Ghost<Seq<U>> }
-pub open spec fn refs<'a, T>(s: Seq<T>) -> Seq<&'a T>;
+pub uninterp spec fn refs<'a, T>(s: Seq<T>) -> Seq<&'a T>;
 pub broadcast axiom fn axiom_refs<'a, T>(s: Seq<T>)
     ensures (#[trigger] refs::<T>(s)).len() == s.len(), forall|i: int| 0 <= i < s.len() ==> *(#[trigger] refs::<T>(s)[i]) == s[i];
 impl<T> Vec<T> {
     #[verifier::external_body]
     pub fn new() -> (r: Vec<T>) ensures r.v@.len() == 0 { unimplemented!() }
     #[verifier::external_body]
+    pub fn with_capacity(n: usize) -> (r: Vec<T>) ensures r.v@.len() == 0 { unimplemented!() }
+    #[verifier::external_body]
+    pub fn push(&mut self, x: T) ensures final(self).v@ == old(self).v@.push(x) { unimplemented!() }
+    #[verifier::external_body]
+    pub fn last(&self) -> (r: Option<&T>) ensures r == (if self.v@.len() > 0 { Some(&self.v@[self.v@.len() - 1]) } else { None }) { unimplemented!() }
+    #[verifier::external_body]
     pub fn is_empty(&self) -> (r: bool) ensures r == (self.v@.len() == 0) { unimplemented!() }
     #[verifier::external_body]
     pub fn len(&self) -> (r: usize) ensures r == self.v@.len() { unimplemented!() }
     #[verifier::external_body]
     pub fn get(&self, i: usize) -> (r: Option<&T>) ensures r == (if i < self.v@.len() { Some(&self.v@[i as int]) } else { None }) { unimplemented!() }
+}
+impl<T> Vec<T> {
+    #[verifier::external_body]
+    pub fn iter<'a>(&'a self) -> (r: VIter<'a, T>) ensures r.r@ == refs(self.v@) { unimplemented!() }
+    #[verifier::external_body]
+    pub fn shrink_to_fit(&mut self) ensures final(self).v@ == old(self).v@ { unimplemented!() }
+}
+/// what an iterator of indices yields, in order
+pub trait VxItems { spec fn items(&self) -> Seq<usize>; }
+pub open spec fn range_seq(a: int, b: int) -> Seq<usize> { Seq::new((if b >= a { b - a } else { 0 }) as nat, |i: int| (a + i) as usize) }
+impl VxItems for Range<usize> { open spec fn items(&self) -> Seq<usize> { range_seq(self.start as int, self.end as int) } }
+impl VxItems for VMapped<usize> { open spec fn items(&self) -> Seq<usize> { self.r@ } }
+/// `either::Either` (the crate's enum; as an iterator it yields what the side it holds yields)
+pub enum Either<L, R> { Left(L), Right(R) }
+impl<L: VxItems, R: VxItems> VxItems for Either<L, R> {
+    open spec fn items(&self) -> Seq<usize> { match self { Either::Left(l) => l.items(), Either::Right(r) => r.items() } }
+}
+/// R-rangeiter target: `(a..b)` used as an iterator
+pub struct VRange { pub a: usize, pub b: usize }
+pub fn vx_range(a: usize, b: usize) -> (r: VRange) ensures r.a == a, r.b == b { VRange { a, b } }
+pub struct VChained { pub s: Ghost<Seq<usize>> }
+impl VRange {
+    #[verifier::external_body]
+    pub fn chain<I: VxItems>(self, o: I) -> (r: VChained) ensures r.s@ == range_seq(self.a as int, self.b as int) + o.items() { unimplemented!() }
+}
+impl VChained {
+    #[verifier::external_body]
+    pub fn collect(self) -> (r: Vec<usize>) ensures r.v@ == self.s@ { unimplemented!() }
+}
+impl Vec<usize> {
+    #[verifier::external_body]
+    pub fn extend<I: VxItems>(&mut self, it: I) ensures final(self).v@ == old(self).v@ + it.items() { unimplemented!() }
 }
 impl<T> Index<usize> for Vec<T> {
     type Output = T;
@@ -153,6 +264,19 @@ impl FencedString {
     }
     pub closed spec fn bytes_spec(&self) -> Seq<u8> { self.buffer.b@ }
     pub open spec fn nchars_spec(&self) -> nat { nchars(self.bytes_spec()) }
+    pub closed spec fn is_default(&self) -> bool { self.buffer.b@ == Seq::<u8>::empty() && self.char_starts.v@.len() == 0 }
+    /// the table is only kept when the text needs it ("empty iff the string is pure ASCII", at construction)
+    pub closed spec fn compact(&self) -> bool { ascii(self.buffer.b@) ==> self.char_starts.v@.len() == 0 }
+}
+/// (the real type derives Clone: structural)
+impl Clone for FencedString {
+    #[verifier::external_body]
+    fn clone(&self) -> (r: FencedString) ensures r == *self { unimplemented!() }
+}
+/// (the real type derives Default: both fields empty)
+impl Default for FencedString {
+    #[verifier::external_body]
+    fn default() -> (r: FencedString) ensures r.is_default() { unimplemented!() }
 }
 
 } // verus!
